@@ -70,12 +70,14 @@ Section Rest.
   Qed.
   Lemma forallb_skipn {A} (p : A -> bool) n l : forallb p l = true -> forallb p (skipn n l) = true.
   Proof. revert l; induction n as [|n IH]; intros [|x r] H; cbn [skipn]; try exact H. cbn [forallb] in H. apply andb_true_iff in H as [_ H]. apply IH; exact H. Qed.
-  Lemma filter_req Q : forallb req_any Q = true -> List.length (filter (fun x => negb (is_key_suffix x)) Q) = List.length Q.
+  Lemma filter_req Q : forallb req_any Q = true ->
+    List.length (filter (fun x => negb (is_key_suffix x) && negb (rest_skips_defaults fixed_args && opt_has_default (tget t x))) Q) = List.length Q.
   Proof.
     induction Q as [|d Q IH]; cbn [forallb filter]; [reflexivity|]. intros H. apply andb_true_iff in H as [Hd HQ].
-    unfold req_any in Hd. apply andb_true_iff in Hd as [Hp _]. unfold plain_name in Hp.
+    unfold req_any in Hd. apply andb_true_iff in Hd as [Hp Hd]. unfold plain_name in Hp.
     apply andb_true_iff in Hp as [Hp _]. apply andb_true_iff in Hp as [Hp _]. apply andb_true_iff in Hp as [H1 _].
-    rewrite H1. cbn [List.length]. rewrite IH by exact HQ. reflexivity.
+    destruct (tget t d) as [dt|]; [|discriminate]. apply andb_true_iff in Hd as [_ Hd]. apply negb_true_iff in Hd.
+    rewrite H1. cbn [opt_has_default]. rewrite Hd, Bool.andb_false_r. cbn [negb andb List.length]. rewrite IH by exact HQ. reflexivity.
   Qed.
 
   Variable star : string.
@@ -94,7 +96,7 @@ Section Rest.
   Proof.
     intros HQ Ha Ht Hi. unfold walk_step. rewrite Hnd, Hstar.
     replace (Nat.ltb (List.length (w_args s)) (w_idx s)) with false by (symmetry; apply Nat.ltb_ge; exact Hi).
-    rewrite (filter_req Q HQ), (take_while_plain _ (forallb_skipn _ _ _ Ha)), skipn_length, Ht.
+    rewrite Ht, (filter_req Q HQ), (take_while_plain _ (forallb_skipn _ _ _ Ha)), skipn_length.
     destruct (tget t (drop1 star)) as [dt|]; [|discriminate]. rewrite Hdecl.
     destruct (Nat.leb (List.length (w_args s) - w_idx s) (List.length Q)); reflexivity.
   Qed.
@@ -146,6 +148,110 @@ Section Rest.
       eexists. split; [reflexivity | split; reflexivity].
   Qed.
 
+  (* ---- trailing parameters with a default (the `?Block` that closes a configured signature) after the trailing
+     required ones: they reserve no argument (repaired code) and are satisfied by their default *)
+  Definition opt_def (d : string) : bool :=
+    plain_name d && match tget t d with
+                    | Some dt => is_builtin dt && negb (tag_is UNKNOWN dt) && has_default dt
+                    | None => false
+                    end.
+
+  Lemma filter_defaults D : forallb opt_def D = true ->
+    filter (fun x => negb (is_key_suffix x) && negb (rest_skips_defaults fixed_args && opt_has_default (tget t x))) D = [].
+  Proof.
+    induction D as [|d D IH]; cbn [forallb filter]; [reflexivity|]. intros H. apply andb_true_iff in H as [Hd HD].
+    unfold opt_def in Hd. apply andb_true_iff in Hd as [_ Hd]. destruct (tget t d) as [dt|]; [|discriminate].
+    apply andb_true_iff in Hd as [_ Hd]. cbn [opt_has_default rest_skips_defaults fixed_args andb]. rewrite Hd.
+    cbn [negb]. rewrite Bool.andb_false_r. apply IH. exact HD.
+  Qed.
+
+  Lemma star_step_defaults cr Q D s : forallb req_any Q = true -> forallb opt_def D = true ->
+    forallb plain_arg (w_args s) = true -> w_tbl s = t -> w_idx s <= List.length (w_args s) ->
+    walk_step fixed_args cr star (Q ++ D) s =
+    SNext {| w_args := w_args s;
+             w_idx := if Nat.leb (List.length (w_args s) - w_idx s) (List.length Q) then w_idx s
+                      else w_idx s + (List.length (w_args s) - w_idx s - List.length Q);
+             w_aster := true; w_tbl := t |}.
+  Proof.
+    intros HQ HD Ha Ht Hi. unfold walk_step. rewrite Hnd, Hstar.
+    replace (Nat.ltb (List.length (w_args s)) (w_idx s)) with false by (symmetry; apply Nat.ltb_ge; exact Hi).
+    rewrite Ht, filter_app, app_length, (filter_req Q HQ), (filter_defaults D HD), (take_while_plain _ (forallb_skipn _ _ _ Ha)), skipn_length.
+    cbn [List.length]. rewrite Nat.add_0_r.
+    destruct (tget t (drop1 star)) as [dt|]; [|discriminate]. rewrite Hdecl.
+    destruct (Nat.leb (List.length (w_args s) - w_idx s) (List.length Q)); reflexivity.
+  Qed.
+
+  Lemma walk_defaults cr D : forall s, forallb opt_def D = true -> forallb plain_arg (w_args s) = true -> w_tbl s = t ->
+    List.length (w_args s) <= w_idx s ->
+    walk fixed_args cr D s = (COk, {| w_args := w_args s; w_idx := w_idx s + List.length D; w_aster := w_aster s; w_tbl := w_tbl s |}).
+  Proof.
+    induction D as [|d D IH]; intros s HD Ha Ht Hi; cbn [walk List.length].
+    - rewrite Nat.add_0_r. destruct s; reflexivity.
+    - cbn [forallb] in HD. apply andb_true_iff in HD as [Hd HD]. unfold opt_def in Hd. apply andb_true_iff in Hd as [Hp Hd].
+      destruct (tget t d) as [dt|] eqn:Et; [|discriminate].
+      apply andb_true_iff in Hd as [Hd Hdef]. apply andb_true_iff in Hd as [Hb Hu]. apply negb_true_iff in Hu.
+      unfold plain_name in Hp. apply andb_true_iff in Hp as [Hp H4]. apply andb_true_iff in Hp as [Hp H3]. apply andb_true_iff in Hp as [H1 H2].
+      apply negb_true_iff in H1, H2, H3.
+      rewrite (walk_step_plain cr d D s dt H3 H2 H1 ltac:(rewrite Ht; exact Et) Hb Hu Ha).
+      replace (Nat.ltb (w_idx s) (List.length (w_args s))) with false by (symmetry; apply Nat.ltb_ge; exact Hi).
+      rewrite Hdef.
+      rewrite (IH {| w_args := w_args s; w_idx := S (w_idx s); w_aster := w_aster s; w_tbl := w_tbl s |} HD Ha Ht ltac:(cbn [w_idx w_args]; lia)).
+      cbn [w_args w_idx w_aster w_tbl]. f_equal. f_equal. lia.
+  Qed.
+
+  (* required ++ [rest] ++ trailing required ++ trailing defaults: accepted exactly from |required| + |trailing
+     required| arguments on *)
+  Theorem rest_arity_defaults P Q D args :
+    forallb req_any P = true -> forallb req_any Q = true -> forallb opt_def D = true -> forallb plain_arg args = true ->
+    (fst (walk fixed_args true (P ++ star :: Q ++ D) {| w_args := args; w_idx := 0; w_aster := false; w_tbl := t |}) = COk
+     <-> List.length P + List.length Q <= List.length args).
+  Proof.
+    intros HP HQ HD Ha.
+    set (s0 := {| w_args := args; w_idx := 0; w_aster := false; w_tbl := t |}).
+    destruct (le_lt_dec (List.length P) (List.length args)) as [Hle|Hlt].
+    - rewrite (walk_required true P (star :: Q ++ D) s0 HP Ha eq_refl ltac:(cbn; lia)). cbn [w_args w_idx w_aster w_tbl s0 walk Nat.add].
+      set (s1 := {| w_args := args; w_idx := List.length P; w_aster := false; w_tbl := t |}).
+      rewrite (star_step_defaults true Q D s1 HQ HD Ha eq_refl ltac:(cbn; lia)). cbn [w_args w_idx s1].
+      destruct (Nat.leb (List.length args - List.length P) (List.length Q)) eqn:E.
+      + apply Nat.leb_le in E.
+        set (s2 := {| w_args := args; w_idx := List.length P; w_aster := true; w_tbl := t |}).
+        destruct (le_lt_dec (List.length P + List.length Q) (List.length args)) as [H2|H2].
+        * rewrite (walk_required true Q D s2 HQ Ha eq_refl ltac:(cbn; lia)). cbn [w_args w_idx w_aster w_tbl s2].
+          rewrite walk_defaults by (cbn [w_args w_idx w_tbl]; try assumption; try reflexivity; lia).
+          cbn [fst]. split; [intros _; exact H2 | reflexivity].
+        * rewrite (walk_required_short Q D s2 HQ Ha eq_refl ltac:(cbn; lia) ltac:(cbn; lia)). split; [discriminate | lia].
+      + apply Nat.leb_gt in E.
+        set (s2 := {| w_args := args; w_idx := List.length P + (List.length args - List.length P - List.length Q); w_aster := true; w_tbl := t |}).
+        rewrite (walk_required true Q D s2 HQ Ha eq_refl ltac:(cbn; lia)). cbn [w_args w_idx w_aster w_tbl s2].
+        rewrite walk_defaults by (cbn [w_args w_idx w_tbl]; try assumption; try reflexivity; lia).
+        cbn [fst]. split; [intros _; lia | reflexivity].
+    - rewrite (walk_required_short P (star :: Q ++ D) s0 HP Ha eq_refl ltac:(cbn; lia) ltac:(cbn; lia)). split; [discriminate | lia].
+  Qed.
+
+  Lemma rest_walk_ok_defaults P Q D args :
+    forallb req_any P = true -> forallb req_any Q = true -> forallb opt_def D = true -> forallb plain_arg args = true ->
+    List.length P + List.length Q <= List.length args ->
+    exists s', walk fixed_args true (P ++ star :: Q ++ D) {| w_args := args; w_idx := 0; w_aster := false; w_tbl := t |} = (COk, s')
+               /\ w_aster s' = true /\ w_tbl s' = t.
+  Proof.
+    intros HP HQ HD Ha Hlen.
+    set (s0 := {| w_args := args; w_idx := 0; w_aster := false; w_tbl := t |}).
+    rewrite (walk_required true P (star :: Q ++ D) s0 HP Ha eq_refl ltac:(cbn; lia)). cbn [w_args w_idx w_aster w_tbl s0 walk Nat.add].
+    set (s1 := {| w_args := args; w_idx := List.length P; w_aster := false; w_tbl := t |}).
+    rewrite (star_step_defaults true Q D s1 HQ HD Ha eq_refl ltac:(cbn; lia)). cbn [w_args w_idx s1].
+    destruct (Nat.leb (List.length args - List.length P) (List.length Q)) eqn:E.
+    - apply Nat.leb_le in E.
+      set (s2 := {| w_args := args; w_idx := List.length P; w_aster := true; w_tbl := t |}).
+      rewrite (walk_required true Q D s2 HQ Ha eq_refl ltac:(cbn; lia)). cbn [w_args w_idx w_aster w_tbl s2].
+      rewrite walk_defaults by (cbn [w_args w_idx w_tbl]; try assumption; try reflexivity; lia).
+      eexists. split; [reflexivity | split; reflexivity].
+    - apply Nat.leb_gt in E.
+      set (s2 := {| w_args := args; w_idx := List.length P + (List.length args - List.length P - List.length Q); w_aster := true; w_tbl := t |}).
+      rewrite (walk_required true Q D s2 HQ Ha eq_refl ltac:(cbn; lia)). cbn [w_args w_idx w_aster w_tbl s2].
+      rewrite walk_defaults by (cbn [w_args w_idx w_tbl]; try assumption; try reflexivity; lia).
+      eexists. split; [reflexivity | split; reflexivity].
+  Qed.
+
   Hypothesis Hstar_plain : is_named_darg star = false.
 
   (* checkAndPropagateArgs, check round, a method that does not return Untyped *)
@@ -171,6 +277,35 @@ Section Rest.
       cbn [fst]. split; [intros _; exact Hle | reflexivity].
     - pose proof (proj1 (rest_arity P Q args HP HQ Ha)) as H.
       destruct (walk fixed_args true (P ++ star :: Q) {| w_args := args; w_idx := 0; w_aster := false; w_tbl := t |}) as [r s'] eqn:E.
+      cbn [fst] in H. destruct r; cbn [fst]; split; try discriminate; try (intros; lia).
+      intros Hc. exfalso. specialize (H eq_refl). lia.
+  Qed.
+  (* ... followed by parameters with a default (`?Block`) *)
+  Theorem check_args_rest_defaults P Q D args :
+    forallb req_any P = true -> forallb req_any Q = true -> forallb opt_def D = true -> forallb plain_arg args = true ->
+    (fst (check_args fixed_args true false (P ++ star :: Q ++ D) t args) = COk <-> List.length P + List.length Q <= List.length args).
+  Proof.
+    intros HP HQ HD Ha. unfold check_args.
+    assert (Hpa : prioritize_args args = args).
+    { unfold prioritize_args. rewrite filter_all, filter_none; [apply app_nil_r| |].
+      - rewrite forallb_forall in *. intros x Hx. specialize (Ha x Hx). unfold plain_arg in Ha. apply andb_true_iff in Ha as [H _]. exact H.
+      - rewrite forallb_forall in *. intros x Hx. specialize (Ha x Hx). unfold plain_arg in Ha. apply andb_true_iff in Ha as [H _]. exact H. }
+    assert (Hnn : forall L, forallb req_any L = true -> forallb (fun n => negb (is_named_darg n)) L = true).
+    { intros L HL. rewrite forallb_forall in *. intros x Hx. specialize (HL x Hx). unfold req_any in HL.
+      apply andb_true_iff in HL as [Hp _]. unfold plain_name in Hp. apply andb_true_iff in Hp as [_ H]. exact H. }
+    assert (Hnd2 : forallb (fun n => negb (is_named_darg n)) D = true).
+    { rewrite forallb_forall in *. intros x Hx. specialize (HD x Hx). unfold opt_def in HD.
+      apply andb_true_iff in HD as [Hp _]. unfold plain_name in Hp. apply andb_true_iff in Hp as [_ H]. exact H. }
+    assert (Hpd : prioritize_dargs (P ++ star :: Q ++ D) = P ++ star :: Q ++ D).
+    { unfold prioritize_dargs. rewrite filter_all, filter_none; [apply app_nil_r| |].
+      - rewrite forallb_app. cbn [forallb]. rewrite forallb_app, (Hnn P HP), (Hnn Q HQ), Hnd2, Hstar_plain. reflexivity.
+      - rewrite forallb_app. cbn [forallb]. rewrite forallb_app, (Hnn P HP), (Hnn Q HQ), Hnd2, Hstar_plain. reflexivity. }
+    rewrite Hpa, Hpd.
+    destruct (le_lt_dec (List.length P + List.length Q) (List.length args)) as [Hle|Hlt].
+    - destruct (rest_walk_ok_defaults P Q D args HP HQ HD Ha Hle) as [s' [E [Has _]]]. rewrite E, Has. cbn [negb andb]. rewrite andb_false_r.
+      cbn [fst]. split; [intros _; exact Hle | reflexivity].
+    - pose proof (proj1 (rest_arity_defaults P Q D args HP HQ HD Ha)) as H.
+      destruct (walk fixed_args true (P ++ star :: Q ++ D) {| w_args := args; w_idx := 0; w_aster := false; w_tbl := t |}) as [r s'] eqn:E.
       cbn [fst] in H. destruct r; cbn [fst]; split; try discriminate; try (intros; lia).
       intros Hc. exfalso. specialize (H eq_refl). lia.
   Qed.
